@@ -174,14 +174,19 @@ claim("C14",
 
 claim("C02",
       "dependence analysis over the lattice {constant, piecewise-constant, smooth} in the frame builders (chart-site detection), constant folding of chart "
-      "thresholds, who-may-read inventory of absolute coordinates",
+      "thresholds, who-may-read inventory of absolute coordinates, radial-form analysis of the pair predicate, re-interpretation of the integral rotation "
+      "loop against the tensor-transformation law with a first-principles local tensor (exact random rotations), two-chart symbolic orthonormality of the frames",
       "Decides where the local->molecular frame builders substitute a constant for a smoothly varying value under a condition on "
       "the bond vector (the mechanism by which forces lose covariance on a measure-zero but user-typical set while energies stay "
       "invariant), bounds the size of those regions, and decides that absolute coordinates enter the package only as differences "
       "or through the inventoried origin-dependent consumers. The two charts present at this commit are recorded known findings "
-      "(triaged at run time); a new chart site or an enlarged region is a violation.",
-      "Does not decide that the 100-component integral rotation and the Slater-Koster overlap rotation are orthogonal "
-      "representations (numerical). Trusted: dependence lattice, axial symmetry of local-frame integrals.",
+      "(triaged at run time); a new chart site or an enlarged region is a violation. Since the second round it also decides that all 100 + 10 "
+      "packed molecular-frame two-electron integrals are the tensor transform of the local-frame integrals for every orthogonal frame (the local "
+      "tensor comes from the point-charge oracle of C06, so its axial symmetry is derived, not assumed), that the quaternion frame is orthogonal "
+      "with its first row on the bond vector on both charts, that the Euler-angle frames of the overlap routines are unit vectors on both charts, "
+      "that the pair selection is the rotation-invariant sphere, and that the one-centre Fock terms are isotropic in the p shell.",
+      "Does not decide the Slater-Koster overlap rotation formulas themselves, the d-orbital rotation matrices (PM6) or anything numerical. "
+      "Trusted: dependence lattice, sympy, 40-digit evaluation at exact rational rotations.",
       "DESIGN.md section 4, C02")
 
 claim("C18",
